@@ -70,43 +70,60 @@ Proof. repeat split; reflexivity. Qed.
 Lemma index_in_zero r l : (index_in r l =? 0)%nat = (hd r l =? r)%nat.
 Proof. destruct l as [|x t]; simpl; [symmetry; apply Nat.eqb_refl|]. destruct (x =? r)%nat; reflexivity. Qed.
 
-Lemma gen_write_start_window ir a c n1 n2 w u1 u2 u3 :
-  write_start_window ir a c n1 n2 w u1 u2 u3 = (b2z (ir =? 0), 1, b2z (ir =? 0)).
+(* sc_shmem_write_start_window: every rank unlocks (1st), then passes the barrier on the INTRANODE communicator (2nd); intrarank 0
+   then takes the exclusive lock (3rd; 234 = MPI_LOCK_EXCLUSIVE of tools/simmpi/mpi.h) and 1 is returned exactly to it *)
+Lemma gen_write_start_window ir a c n1 n2 w u1 u2 u3 u4 :
+  write_start_window ir a c n1 n2 w u1 u2 u3 u4 =
+  (b2z (ir =? 0), 1, 1, 1, 2, n1, b2z (ir =? 0), if ir =? 0 then 3 else 0, if ir =? 0 then 234 else 0).
 Proof. unfold write_start_window. cbv zeta. unfold z2b. destruct (ir =? 0); reflexivity. Qed.
 
 (* the model's return value of sc_shmem_write_start: the basic flavours return the generated constant, the window flavours
    the generated value for intrarank = position of the rank in its node *)
-Lemma gen_write_start comms f r a c n1 n2 w u1 u2 u3 :
+Definition ws_ret (x : Z * Z * Z * Z * Z * Z * Z * Z * Z) : Z := let '(ret, _, _, _, _, _, _, _, _) := x in ret.
+Lemma gen_write_start comms f r a c n1 n2 w u1 u2 u3 u4 :
   write_start comms f r =
   match comms r with
   | Some nc => if is_shared f
-               then z2b (fst (fst (write_start_window (zn (index_in r (intra nc))) a c n1 n2 w u1 u2 u3)))
+               then z2b (ws_ret (write_start_window (zn (index_in r (intra nc))) a c n1 n2 w u1 u2 u3 u4))
                else z2b write_start_basic
   | None => z2b write_start_basic
   end.
 Proof.
   unfold write_start, writer_of. destruct (comms r) as [nc|]; [|apply Nat.eqb_refl].
   destruct (is_shared f); [|apply Nat.eqb_refl].
-  rewrite gen_write_start_window. cbn [fst]. rewrite <- index_in_zero.
+  rewrite gen_write_start_window. cbn [ws_ret]. rewrite <- index_in_zero.
   change 0 with (zn 0). destruct (Nat.eqb_spec (index_in r (intra nc)) 0) as [E|E].
   - rewrite E. reflexivity.
   - destruct (Z.eqb_spec (zn (index_in r (intra nc))) (zn 0)); [lia|reflexivity].
 Qed.
 
-(* the MPI calls around it (codes of ShmemModel.v: 6 Win_unlock, 7 Win_lock exclusive, 5 Barrier, 8 Win_lock shared) *)
-Lemma gen_calls_write_start ir a c n1 n2 w u1 u2 u3 :
-  let '(ret, unl, lck) := write_start_window ir a c n1 n2 w u1 u2 u3 in
-  calls_write_start true (z2b ret) = (if unl =? 1 then [6%nat] else []) ++ (if lck =? 1 then [7%nat] else []).
-Proof. rewrite gen_write_start_window. destruct (ir =? 0); reflexivity. Qed.
+(* the MPI calls around it, IN THE ORDER the generated code makes them (codes of ShmemModel.v: 6 Win_unlock, 5 Barrier on the
+   intranode communicator, 7 Win_lock exclusive, 8 Win_lock shared).  A slice reports for each call (called, position among the
+   lock / barrier calls of the executed path); `calls_in_order` lists the codes of the calls made by ascending position. *)
+Fixpoint insert_call (c : Z * nat) (l : list (Z * nat)) : list (Z * nat) :=
+  match l with [] => [c] | d :: t => if fst c <=? fst d then c :: l else d :: insert_call c t end.
+Definition calls_in_order (l : list (Z * Z * nat)) : list nat :=
+  map snd (fold_right insert_call [] (map (fun x => (snd (fst x), snd x)) (filter (fun x => fst (fst x) =? 1) l))).
+Definition lock_code (t : Z) : nat := if t =? 234 then 7%nat else if t =? 235 then 8%nat else 97%nat.
 
+Lemma gen_calls_write_start ir a c n1 n2 w u1 u2 u3 u4 :
+  let '(ret, unl, unl_at, bar, bar_at, bar_comm, lck, lck_at, lck_type) := write_start_window ir a c n1 n2 w u1 u2 u3 u4 in
+  calls_write_start true (z2b ret) = calls_in_order [(unl, unl_at, 6%nat); (bar, bar_at, 5%nat); (lck, lck_at, lock_code lck_type)]
+  /\ bar_comm = n1.
+Proof. rewrite gen_write_start_window. destruct (ir =? 0); split; reflexivity. Qed.
+
+(* sc_shmem_write_end_window: only intrarank 0 unlocks; then the barrier on the intranode communicator; then everybody takes
+   the shared lock (235 = MPI_LOCK_SHARED) *)
 Lemma gen_write_end_window ir a c n1 n2 w u1 u2 u3 u4 :
-  write_end_window ir a c n1 n2 w u1 u2 u3 u4 = (b2z (ir =? 0), 1, n1, 1).
+  write_end_window ir a c n1 n2 w u1 u2 u3 u4 =
+  (b2z (ir =? 0), (if ir =? 0 then 1 else 0), 1, (if ir =? 0 then 2 else 1), n1, 1, (if ir =? 0 then 3 else 2), 235).
 Proof. unfold write_end_window. cbv zeta. unfold z2b. destruct (ir =? 0); reflexivity. Qed.
 
 Lemma gen_calls_write_end ir a c n1 n2 w u1 u2 u3 u4 :
-  let '(unl, bar, _, lck) := write_end_window ir a c n1 n2 w u1 u2 u3 u4 in
-  calls_write_end true (ir =? 0) = (if unl =? 1 then [6%nat] else []) ++ (if bar =? 1 then [5%nat] else []) ++ (if lck =? 1 then [8%nat] else []).
-Proof. rewrite gen_write_end_window. destruct (ir =? 0); reflexivity. Qed.
+  let '(unl, unl_at, bar, bar_at, bar_comm, lck, lck_at, lck_type) := write_end_window ir a c n1 n2 w u1 u2 u3 u4 in
+  calls_write_end true (ir =? 0) = calls_in_order [(unl, unl_at, 6%nat); (bar, bar_at, 5%nat); (lck, lck_at, lock_code lck_type)]
+  /\ bar_comm = n1.
+Proof. rewrite gen_write_end_window. destruct (ir =? 0); split; reflexivity. Qed.
 
 (* the node root, and nobody else, allocates the gather buffer *)
 Lemma gen_is_root ir : allgather_common_is_root ir = (ir =? 0) /\ prefix_common_is_root ir = (ir =? 0) /\ prefix_common_prescan_is_root ir = (ir =? 0).
